@@ -88,8 +88,13 @@ class SQLDumper(DumperBase):
         for k, v in table_to_resource.items():
             v['table-name'] = k
 
-        self.converted_resources = \
-            dict((v['resource-name'], v) for v in table_to_resource.values())
+        self.converted_resources = {}
+        for v in table_to_resource.values():
+            # One table per resource: a second one used to be dropped silently
+            if v['resource-name'] in self.converted_resources:
+                raise ValueError('Resource %r is mapped to more than one table (%r, %r)' % (
+                    v['resource-name'], self.converted_resources[v['resource-name']]['table-name'], v['table-name']))
+            self.converted_resources[v['resource-name']] = v
 
         self.updated_column = updated_column
         self.updated_id_column = updated_id_column
